@@ -34,6 +34,6 @@ namespace ratio
     };
 
   private:
-    bool_item &b_itm; // the bool variable whose value has to be decided..
+    const smt::lit b_lit; // the literal of the bool variable whose value has to be decided (the item itself can be destroyed along with the environment that declared it)..
   };
 } // namespace ratio
